@@ -475,6 +475,25 @@ theorem broadcast_getItem_longer (a b c : List Natural) (h : broadcast (some a) 
   rw [h1] at this
   exact this.symm
 
+/-- **`Shape.broadcast` raises exactly when some right-aligned axis clashes** (shapes of known rank, any ranks):
+    together with `broadcast_dimwise` this is the complete dimension-by-dimension specification of the function. -/
+theorem broadcast_raises_iff_axis_clash (a b : List Natural) :
+    broadcast (some a) (some b) = none ↔ ∃ i, bElem (rdim a i) (rdim b i) = none :=
+  Types.broadcast_none_iff_clash a b
+
+/-- The boundary judgement accepts every constructible type for itself. -/
+theorem subtype_refl (a : Ty) (ha : WF a) : subtype table a a = true := by
+  rw [subtype_iff_common_value a a ha ha.2]
+  exact ⟨wit a a, (wit_spec a a ((compat_iff_common_value a a).2
+    ⟨inh a, (inh_spec a).1, (inh_spec a).2, (inh_spec a).2⟩)).1,
+    (wit_spec a a ((compat_iff_common_value a a).2 ⟨inh a, (inh_spec a).1, (inh_spec a).2, (inh_spec a).2⟩)).2⟩
+
+/-- ... but it is not an order: "can describe a common value" is not transitive (`(2,)` ~ `('N',)` ~ `(3,)`),
+    which is why `_subtype` must not be chained through an intermediate type. -/
+theorem subtype_not_transitive :
+    ∃ a b c : Ty, subtype table a b = true ∧ subtype table b c = true ∧ subtype table a c = false :=
+  ⟨.tensor 3 (some [.const 2]), .tensor 3 (some [.unk "N"]), .tensor 3 (some [.const 3]), by decide +kernel⟩
+
 /-- **`unwrap_tensor` / `unwrap_sequence` / `unwrap_optional`**: on every type a program can build exactly one of
     the three succeeds, and it returns the type unchanged. -/
 theorem unwrap_exactly_one (t : Ty) (h : t.anyFree = true) :
